@@ -33,6 +33,15 @@ def prompt(pid, tag):
   sh('git -C /repo worktree remove --force %s' % wt)
   r = sh('git -C /repo worktree add --detach %s HEAD' % wt)
   os.makedirs(out, exist_ok=True)
+  avoid = ''
+  prev = []
+  for t in 'abcdefgh':
+    mp = os.path.join(os.path.dirname(os.path.abspath(__file__)), 'seeded', '%s-%s' % (pid, t), 'meta.json')
+    if os.path.exists(mp) and t != tag:
+      m = json.load(open(mp))
+      prev.append('%s (%s)' % (', '.join(m.get('files', [])), m.get('summary', '')[:160].replace('\n', ' ')))
+  if prev:
+    avoid = 'Earlier changes already made by others - choose a DIFFERENT mechanism and, if you can, a different function: ' + ' | '.join(prev) + '\n\n'
   return f"""You are helping to evaluate a verification effort for the open-source project google/vizier (Python black-box optimisation service). Your job is to write ONE realistic, subtle change to the project's source that BREAKS the following behavioural property, while the project still imports, and its existing test suite still passes.
 
 PROPERTY ({pid}: {d['title']})
@@ -55,7 +64,7 @@ WHAT TO PRODUCE
 4. Save the change as a patch: `git -C {wt} diff > {out}/patch.diff` (must apply with `git apply` to a clean checkout of the same commit).
 5. Write {out}/meta.json with keys: property ("{pid}"), summary (what the change does), needs (what specific situation is needed for the breakage to manifest), files (list), how_verified (commands you ran and their outcomes).
 
-Constraints: do not edit or add test files of the repository; do not add new dependencies; keep the change under ~30 changed lines. Prefer breaking the behaviour in a way that is silent (wrong result / lost data / wrong state) rather than a crash. When finished, reply with a short summary (files changed, why it breaks the property, what it needs to manifest, demo results)."""
+{avoid}Constraints: do not edit or add test files of the repository; do not add new dependencies; keep the change under ~30 changed lines. Prefer breaking the behaviour in a way that is silent (wrong result / lost data / wrong state) rather than a crash. When finished, reply with a short summary (files changed, why it breaks the property, what it needs to manifest, demo results)."""
 
 
 def verify(d):
